@@ -7,8 +7,11 @@ reg(Prop('C11', [
            exhaustive='every AttributeValue variant x version 2..5 x format x address size 4/8 x endianness (3 boundary payload draws each), '
                       'placed before a referenced entry in a unit with forward, backward and ref_addr references and sibling pointers; odd versions / address sizes; '
                       'boundary sizes: >127 / >255 (thorough: >16383) abbreviation codes, .debug_str and units beyond 64 KiB, 16383/16384-byte blocks and expressions, '
-                      'file indices >127, 12 units; 64 wide-root units (21..80 children, interleaved base types, 30+ member structs) + 10% of the random share'),
+                      'file indices >127, 12 units; 64 wide-root units (21..80 children, interleaved base types, 30+ member structs) + 10% of the random share; '
+                      '150 abbreviation-key units (groups of DIEs equal or differing in exactly one of tag / children flag / sibling / attribute order / one name / one form / '
+                      'attribute count / implicit_const payload, boundary i64 payloads) + 10% of the random share'),
     Stream('c11.sem', 6000, 150000, 'oracle', timeout=900),
+    Stream('c11.conv', 2500, 60000, 'oracle', timeout=900),
     Stream('c11.misuse', 200, 5000, 'spec'),
 ], level='proof', design_ref='§5 C11',
     clauses=['form_size_write_len', 'form_size_write_decodes', 'offsets_exact', 'refs_resolve', 'roundtrip', 'unit_roundtrip',
@@ -23,7 +26,10 @@ reg(Prop('C11', [
         'expression bytes, range/location list offsets and the line program offset are opaque parameters of the model (owned by C13/C15/C16); '
         'their use by the unit writer is tied by the byte-level stream and the semantic oracle',
         'cross-unit DebugInfoRef fix-ups: success implies every fix-up resolved (theorem); that the patched value is the target\'s position follows from offsets_exact per unit, '
-        'the composition over the unit table is checked by the streams (1-4 units, Dwarf::write, incremental UnitTable::write, DwarfUnit::write)',
+        'the composition over the unit table is checked by the streams (1-4 units, Dwarf::write, incremental UnitTable::write, DwarfUnit::write); '
+        'c11.conv: units converted and written one at a time through ConvertUnit::write (all / none / a subset) with the fix-ups left to the final Dwarf::write, '
+        'ref_addr attributes and DW_OP_call_ref / implicit_pointer / variable_value in exprlocs and location lists between units in both directions (semantic oracle only: '
+        'reference-carrying expressions are opaque to the model)',
     ],
     technique='Coq theorems over a Gallina model of write::unit/abbrev/str (two-pass layout, three attribute switches, fix-ups, de-duplicating tables) + '
               'differential execution of API scripts against gimli (section bytes = model bytes, debug+release) + semantic read-back oracle through gimli::read',
